@@ -275,6 +275,8 @@ func c08RunDecoder(tb drv.TB, rec *drv.Rec, sub string, c c08Case) {
 	defer drv.End()
 	in := exactCopy(c.Data)
 	entered := false
+	var raOpts *packet.NewOptions
+	var raErr error
 	p, sig, st := drv.Catch(func() {
 		switch c.Dec {
 		case "DecodeQuestion":
@@ -295,7 +297,10 @@ func c08RunDecoder(tb drv.TB, rec *drv.Rec, sub string, c c08Case) {
 		case "RA.Options":
 			if v := packet.ICMP6RouterAdvertisement(in); v.IsValid() == nil {
 				entered = true
-				v.Options()
+				opts, err := v.Options()
+				if err == nil { // "reported as an error or ignored": what is returned without an error must be in the message
+					raOpts, raErr = &opts, nil
+				}
 			}
 		case "RS.Options":
 			if v := packet.ICMP6RouterSolicitation(in); v.IsValid() == nil {
@@ -325,6 +330,37 @@ func c08RunDecoder(tb drv.TB, rec *drv.Rec, sub string, c c08Case) {
 			}
 		}
 	})
+	if p == nil && raOpts != nil && len(in) >= 16 {
+		// every prefix the decoder hands back must be carried by a prefix information option of the message that a reference walk
+		// of the option list reaches intact (type 3, 32 bytes); a damaged option yields an error or nothing, never a made-up prefix
+		type pfx struct {
+			l byte
+			a [16]byte
+		}
+		have := map[pfx]bool{}
+		lst, _ := ref.ParseNDPOptions(in[16:])
+		for _, o := range lst {
+			if o.Type == 3 && len(o.Body) == 30 {
+				var a [16]byte
+				if o.Body[0] <= 128 { // (a length above 128 cannot mask anything: the library keeps the raw length with no prefix)
+					copy(a[:], o.Body[14:30])
+					for bit := int(o.Body[0]); bit < 128; bit++ {
+						a[bit/8] &^= 0x80 >> (bit % 8)
+					}
+				}
+				have[pfx{o.Body[0], a}] = true
+			}
+		}
+		for _, q := range raOpts.Prefixes {
+			var a [16]byte
+			copy(a[:], q.Prefix.To16())
+			if (len(q.Prefix) != 16 && !(q.PrefixLength > 128 && q.Prefix == nil)) || !have[pfx{q.PrefixLength, a}] {
+				rec.Violation(tb, sub, "decoder-RA.Options-invented-prefix", c, "RA.Options returned no error and the prefix %v/%d, which no intact prefix information option of the message carries (reference walk: %d options)", q.Prefix, q.PrefixLength, len(lst))
+				return
+			}
+		}
+	}
+	_ = raErr
 	if p != nil {
 		rec.Violation(tb, sub, "decoder-"+c.Dec+"-"+sig, c, "%s panicked on %d bytes: %v\n%s", c.Dec, len(in), p, st)
 		return
